@@ -31,6 +31,8 @@ var noopPkgs = []string{
 	"runtime/pprof",
 	"runtime/trace",
 	"os/signal",
+	"internal/godebug",
+	"github.com/oneconcern/datamon/pkg/metrics",
 }
 
 func isNoopPkg(path string) bool {
